@@ -83,6 +83,60 @@ var (
 	rootSeen   = map[string]string{} // root hex -> canonical content string (C02 injectivity over the run)
 )
 
+// typeConfusion is the matcher of known finding C02-type-confusion: the two colliding contents differ only in
+// that one holds a single key K = P+lp whose value has 31-len(lp) bytes (a leaf at position P whose encoding
+// "P:lp:value" reads as an extension "P:<32-byte child key>") where the other holds >= 2 keys extending P+P.
+func typeConfusion(ca, cb string) bool {
+	parse := func(c string) map[string]string {
+		m := map[string]string{}
+		i := strings.IndexByte(c, '|')
+		for _, kv := range strings.Split(c[i+1:], ",") {
+			if kv == "" {
+				continue
+			}
+			j := strings.IndexByte(kv, '=')
+			m[strings.TrimPrefix(kv[:j], "-")] = kv[j+1:]
+		}
+		return m
+	}
+	a, b := parse(ca), parse(cb)
+	onlyA, onlyB := map[string]string{}, map[string]string{}
+	for k, v := range a {
+		if b[k] != v {
+			onlyA[k] = v
+		}
+	}
+	for k, v := range b {
+		if a[k] != v {
+			onlyB[k] = v
+		}
+	}
+	check := func(one, many map[string]string) bool {
+		if len(one) != 1 || len(many) < 2 {
+			return false
+		}
+		for k, v := range one {
+			for pl := 0; pl <= len(k); pl++ {
+				pfx, lp := k[:pl], k[pl:]
+				if len(lp)+1+len(v)/2 != 32 {
+					continue
+				}
+				ok := true
+				for k2 := range many {
+					if !strings.HasPrefix(k2, pfx+pfx) {
+						ok = false
+					}
+				}
+				if ok {
+					return true
+				}
+			}
+		}
+		return false
+	}
+	return check(onlyA, onlyB) || check(onlyB, onlyA)
+}
+
 func contentKey(version int64, m map[string][]byte) string {
 	return strconv.FormatInt(version, 10) + "|" + fmtPairs(sortedPairs(m))
 }
@@ -258,6 +312,9 @@ func runMptMap(ops []string, checkCanon bool) CaseResult {
 					rootSeenMu.Lock()
 					if prev, ok := rootSeen[rk]; ok && prev != ck {
 						fail(i, "two different contents share root %s: %s vs %s", got, prev, ck)
+						if typeConfusion(prev, ck) {
+							res.Finding = "C02-type-confusion"
+						}
 					}
 					rootSeen[rk] = ck
 					rootSeenMu.Unlock()
